@@ -100,12 +100,12 @@ func (c c04) Run(ctx *core.Ctx) error {
 			cases = append(cases, core.J(c04Case{Prog: p, Cfgs: cfgs, AllOffsets: true}))
 		}
 	}
-	// seek-heavy programs (rewinds of different lengths, repeated rewinds) over three record sizes: 1, 14 and 40 (zero) bytes
+	// seek-heavy programs (rewinds of different lengths, repeated rewinds) over four records: nil, 1, 14 and 40 (zero) bytes
 	seekMax := 5
 	if ctx.Tier == "thorough" {
 		seekMax = 6
 	}
-	seekRecs := []int{rioRecIndex("a"), rioRecIndex("mk00ff"), rioRecIndex("z40")}
+	seekRecs := []int{rioRecIndex("nil"), rioRecIndex("a"), rioRecIndex("mk00ff"), rioRecIndex("z40")}
 	seekCfgs := []rioCfg{{Comp: 0, WBuf: 16, RBuf: 4096}, {Comp: 0, WBuf: 4096, RBuf: 4096}, {Comp: 2, WBuf: 16, RBuf: 4096}, {Comp: 2, WBuf: 4096, RBuf: 5}}
 	nseek := 0
 	for l := maxLen + 1; l <= seekMax; l++ {
@@ -155,7 +155,7 @@ func (c c04) Run(ctx *core.Ctx) error {
 		}
 	}
 	ctx.Ev.Bounds["legacy_fixture_files"] = legacy
-	ctx.Ev.Rule = "every writer program of Write/WriteSync/Seek(to a surviving boundary) up to the length bound over 13 records (nil, empty, 40 zero bytes, marker prefixes and the full marker, a payload that makes a trial read overflow a varint, payloads starting with 00/80, a 4200-byte incompressible record containing a marker) x 4 compressions x write buffers {3,16,4096} x read buffers {5,4096} (+ direct-I/O factory for Write-only programs; + every program with at least one Seek up to seek_programs_max_length over records of 1, 14 and 40 bytes x 4 configs); plus the 255-record fixtures of format versions 1-4 of the repository read through every path against their documented content; per file: every word over {ReadNext,SkipNext} of length n+1, ReadNextAt at every returned offset, SeekNext from every byte offset 0..size. a case is distinct by (program, config); non-trivial = at least one record survives"
+	ctx.Ev.Rule = "every writer program of Write/WriteSync/Seek(to a surviving boundary) up to the length bound over 13 records (nil, empty, 40 zero bytes, marker prefixes and the full marker, a payload that makes a trial read overflow a varint, payloads starting with 00/80, a 4200-byte incompressible record containing a marker) x 4 compressions x write buffers {3,16,4096} x read buffers {5,4096} (+ direct-I/O factory for Write-only programs; + every program with at least one Seek up to seek_programs_max_length over the records nil, 1, 14 and 40 zero bytes x 4 configs); plus the 255-record fixtures of format versions 1-4 of the repository read through every path against their documented content; per file: every word over {ReadNext,SkipNext} of length n+1, ReadNextAt at every returned offset, SeekNext from every byte offset 0..size. a case is distinct by (program, config); non-trivial = at least one record survives"
 	ctx.Ev.Bounds["max_program_length"] = maxLen
 	ctx.Ev.Bounds["programs"] = nprog
 	ctx.Ev.Bounds["direct_io_programs"] = nd
